@@ -314,6 +314,12 @@ def run(ctx):
                                  'trimming keeps, leading trivia is kept too, and a node without any token yields Some("") instead of None' % tr[0]['m'])
         if len(fors) != 1:
             return 'undecided', 'expected one loop over the node\'s leaves'
+        # must-pass-through: no result other than None is produced without walking the leaves of the node that was asked for
+        from vlib import paths as _paths
+        early = [e_ for e_ in _paths.exits_avoiding(body, lambda n_: n_ is fors[0]['e']) if sq(e_) != 'None']
+        if early:
+            return 'wrong', ('a result (`%s`) is returned without walking the leaves of the node: it is not the slice spanned by that node\'s own first and last leaf '
+                             '(e.g. the whole text for a root whose tree, in incomplete mode, stops before an unparsable tail)' % sq(early[0])[:50])
         it = sq(fors[0]['e'])
         if '.rev()' in it:
             return 'wrong', 'the leaves are visited in reverse order'
